@@ -65,6 +65,7 @@ impl Redeemer {
         let len = raw.array()?;
         let mut read_len = CBORReadLen::new(len);
         read_len.read_elems(4)?;
+        read_len.finish()?;
         let tag = (|| -> Result<_, DeserializeError> { Ok(RedeemerTag::deserialize(raw)?) })()
             .map_err(|e| e.annotate("tag"))?;
         let index = (|| -> Result<_, DeserializeError> { Ok(BigNum::deserialize(raw)?) })()
@@ -102,6 +103,7 @@ impl Redeemer {
         let len = raw.array()?;
         let mut read_len = CBORReadLen::new(len);
         read_len.read_elems(2)?;
+        read_len.finish()?;
 
         let tag = RedeemerTag::deserialize(raw)?;
         let index = BigNum::deserialize(raw)?;
@@ -117,6 +119,7 @@ impl Redeemer {
         let len = raw.array()?;
         let mut read_len = CBORReadLen::new(len);
         read_len.read_elems(2)?;
+        read_len.finish()?;
 
         let data = PlutusData::deserialize(raw)?;
         let ex_units = ExUnits::deserialize(raw)?;
